@@ -61,6 +61,7 @@ typedef struct {
         void *jud;
         uint8_t byteP;
         uint8_t inflight; /* 0/1 flags; always compared through != 0 */
+        uint8_t last;     /* the LAST segment of this message has been accepted */
         uint8_t swapped;  /* SM3: digest words already byte-swapped */
 } vf_ghost_t;
 
@@ -126,6 +127,9 @@ uint32_t g_lenA, g_lenB;
 
 /* a context whose job is inside (or just came out of) the lane manager */
 #define VF_INV_FLIGHT(c, h, g, buf, blen)                                                          \
+        ((((VF_ST(c) & (VF_L | VF_C)) != 0) == ((g).last != 0)) &&                                 \
+         VF_INV_FLIGHT0(c, h, g, buf, blen))
+#define VF_INV_FLIGHT0(c, h, g, buf, blen)                                                         \
         (((VF_ST(c) == VF_P || VF_ST(c) == (VF_P | VF_L)) && VF_LAYOUT(c, h, g, buf, blen) &&      \
           (VF_PLEN(c) == 0 || VF_ILEN(c) == 0)) ||                                                 \
          (VF_ST(c) == (VF_P | VF_C) && (c)->total_length < VF_MAXTOT &&                            \
@@ -143,7 +147,7 @@ uint32_t g_lenA, g_lenB;
 #endif
 
 /* what a context handed back to the user looks like (pieces, each its own ensures clause) */
-#define VF_RET_STATUS(c) (VF_ST(c) == 0 || VF_ST(c) == VF_C)
+#define VF_RET_STATUS(c, g) (VF_ST(c) == ((g).last ? VF_C : 0u))
 #define VF_RET_IDLE_LAYOUT(c, g, buf, blen)                                                        \
         (VF_ST(c) == 0 ==> (VF_LAYOUT(c, (g).hashed, g, buf, blen) && VF_ILEN(c) == 0))
 #define VF_RET_IDLE_DIGEST(c, g) (VF_ST(c) == 0 ==> VF_T((c)->job.result_digest[g_W] == (g).dw))
@@ -152,7 +156,7 @@ uint32_t g_lenA, g_lenB;
 #define VF_RET_DONE_DIGEST(c, g)                                                                   \
         (VF_ST(c) == VF_C ==> VF_T((c)->job.result_digest[g_W] == VF_FINAL_DW(g)))
 #define VF_ENS_RETURNED(cond, c, g, buf, blen)                                                     \
-        __CPROVER_ensures((cond) ==> VF_RET_STATUS(c))                                             \
+        __CPROVER_ensures((cond) ==> VF_RET_STATUS(c, g))                                             \
         __CPROVER_ensures((cond) ==> VF_UD(c, g))                                                  \
         __CPROVER_ensures((cond) ==> VF_RET_IDLE_LAYOUT(c, g, buf, blen))                          \
         __CPROVER_ensures((cond) ==> VF_RET_IDLE_DIGEST(c, g))                                     \
@@ -209,6 +213,7 @@ __CPROVER_assigns(__CPROVER_object_whole(state), __CPROVER_object_whole(g_B), vf
 /* frame inside the two coarse targets vfG and g_A->job */
 __CPROVER_ensures(gA.o == __CPROVER_old(gA.o) && gA.ud == __CPROVER_old(gA.ud) &&
                   gA.jud == __CPROVER_old(gA.jud) && gA.byteP == __CPROVER_old(gA.byteP) &&
+                  gA.last == __CPROVER_old(gA.last) &&
                   (gA.swapped != 0) == (__CPROVER_old(gA.swapped) != 0))
 __CPROVER_ensures(g_A->job.buffer == __CPROVER_old(g_A->job.buffer) &&
                   g_A->job.len == __CPROVER_old(g_A->job.len) &&
@@ -248,6 +253,7 @@ __CPROVER_ensures(gA.hashed == __CPROVER_old(gA.hashed) && gA.dw == __CPROVER_ol
                   (gA.inflight != 0) == (__CPROVER_old(gA.inflight) != 0) &&
                   gA.o == __CPROVER_old(gA.o) && gA.ud == __CPROVER_old(gA.ud) &&
                   gA.jud == __CPROVER_old(gA.jud) && gA.byteP == __CPROVER_old(gA.byteP) &&
+                  gA.last == __CPROVER_old(gA.last) &&
                   (gA.swapped != 0) == (__CPROVER_old(gA.swapped) != 0))
 __CPROVER_ensures(__CPROVER_return_value == NULL || __CPROVER_return_value == &g_B->job)
 __CPROVER_ensures((__CPROVER_return_value == NULL) == (__CPROVER_old(g_n) == 0))
@@ -325,7 +331,7 @@ static const VF_WORD_T vf_iv[VF_NWORDS] = { VF_IVLIST };
 /* The harness allocates mgr, g_A, g_B, g_bufA (g_lenA bytes), g_bufB (g_lenB bytes) as
  * distinct exact-size heap objects; the requires below only relate arguments to them. */
 #define VF_COMMON_REQ                                                                              \
-        __CPROVER_requires(g_n < g_lanes && g_W < VF_NWORDS && g_work < (1ull << 32))
+        __CPROVER_requires(g_n < g_lanes && g_W < VF_NWORDS && VF_W(g_work < (1ull << 32)))
 
 #define VF_GHOST_FRAME vfG
 
@@ -359,6 +365,10 @@ static const VF_WORD_T vf_iv[VF_NWORDS] = { VF_IVLIST };
         __CPROVER_ensures((gA.inflight != 0) == ((ctx == g_A || (__CPROVER_old(gA.inflight) != 0)) &&            \
                                           __CPROVER_return_value != g_A))                          \
         __CPROVER_ensures(gA.inflight ==> VF_FLIGHT_A)                                             \
+        __CPROVER_ensures(__CPROVER_return_value == g_A ==>                                        \
+                          (ctx == g_A || (__CPROVER_old(gA.inflight) != 0)))                       \
+        __CPROVER_ensures(g_A->error == __CPROVER_old(g_A->error) &&                               \
+                          g_A->total_length == __CPROVER_old(g_A->total_length))                   \
         __CPROVER_ensures(g_n < g_lanes)                                                           \
         __CPROVER_ensures(__CPROVER_return_value != NULL ==> g_n == __CPROVER_old(g_n))            \
         __CPROVER_ensures((__CPROVER_return_value == NULL && ctx != NULL) ==>                      \
@@ -379,6 +389,8 @@ static const VF_WORD_T vf_iv[VF_NWORDS] = { VF_IVLIST };
                                                  ctx != g_A))                                      \
         __CPROVER_loop_invariant(ctx == g_A ==> ((__CPROVER_loop_entry(ctx) == g_A) ||             \
                                                  (__CPROVER_loop_entry(gA.inflight) != 0)))        \
+        __CPROVER_loop_invariant(g_A->error == __CPROVER_loop_entry(g_A->error) &&                 \
+                                 g_A->total_length == __CPROVER_loop_entry(g_A->total_length))     \
         __CPROVER_loop_invariant(g_n < g_lanes && VF_W(g_work < (1ull << 33)))                           \
         __CPROVER_loop_invariant(ctx != NULL ==> g_n == __CPROVER_loop_entry(g_n))                 \
         __CPROVER_loop_invariant((ctx == NULL && __CPROVER_loop_entry(ctx) != NULL) ==>            \
@@ -415,7 +427,8 @@ static const VF_WORD_T vf_iv[VF_NWORDS] = { VF_IVLIST };
         __CPROVER_requires(gA.inflight ==> VF_FLIGHT_A)                                            \
         __CPROVER_requires(!VF_REJECTED ==> (                                                      \
                 (VF_ST(ctx) == 0 || VF_ST(ctx) == VF_C) && VF_T0 + len < VF_MAXTOT && !gA.swapped && \
-                (VF_FIRST ? VF_T(gA.hashed == 0 && gA.dw == vf_iv[g_W])                            \
+                (gA.last != 0) == VF_LASTF &&                                                      \
+                (VF_FIRST ? (gA.hashed == 0 && VF_T(gA.dw == vf_iv[g_W]))                            \
                           : (VF_ST(ctx) == 0 && VF_LAYOUT(ctx, gA.hashed, gA, g_bufA, 0u) &&       \
                              VF_ILEN(ctx) == 0 &&                                                  \
                              VF_T(ctx->job.result_digest[g_W] == gA.dw))) &&                       \
@@ -441,8 +454,6 @@ static const VF_WORD_T vf_iv[VF_NWORDS] = { VF_IVLIST };
         __CPROVER_ensures(!VF_REJECTED_O ==> g_n < g_lanes)                                        \
         VF_ENS_RETURNED(!VF_REJECTED_O && __CPROVER_return_value == g_A, g_A, gA, g_bufA, g_lenA)  \
         VF_ENS_RETURNED(!VF_REJECTED_O && __CPROVER_return_value == g_B, g_B, gB, g_bufB, g_lenB)  \
-        __CPROVER_ensures((!VF_REJECTED_O && __CPROVER_return_value == g_A) ==>                    \
-                          VF_ST(g_A) == (VF_LASTF ? VF_C : 0u))                                    \
         __CPROVER_ensures((!VF_REJECTED_O && gA.inflight) ==> VF_FLIGHT_A)
 
 #define VF_C_FLUSH                                                                                 \
